@@ -258,6 +258,24 @@ def run_shard(ctx):
                     ctx.count('tuples_of_mid_sized_chains')
                     check_tuple(ctx, name, tup)
                 i += 1
+        if name in ('BensonGA', 'PPY'):
+            # a component with an unusual but valid ring (ring alkyne, ring
+            # allene, small / medium rings, ring radical) written BEFORE and
+            # AFTER an ordinary aromatic / aliphatic ring component: whatever
+            # walks the rings of the joint molecule must not let one
+            # component's ring decide about the other's
+            odd = ['C1=CC=CC#C1', 'C1CCCC#C1', 'C1CCC=C=C1', 'C1=CC1',
+                   'C1CCCCCCC1', '[CH]1CCCCC1', 'C1=CCC=CC1', 'O1C=CC=C1']
+            plain = ['c1ccccc1', 'Oc1ccccc1', 'Cc1ccccc1', 'C1CCCCC1',
+                     'c1ccncc1' if name == 'PPY' else 'c1ccc(C)cc1C']
+            for a_ in odd:
+                for b_ in plain:
+                    for tup in ((a_, b_), (b_, a_), (a_, 'CC', b_)):
+                        if ctx.mine(i) and (ctx.tier == 'thorough' or
+                                            (i // 16 + ctx.seed) % 2 == 0):
+                            ctx.count('tuples_with_an_unusual_ring_component')
+                            check_tuple(ctx, name, tup)
+                        i += 1
         r = ctx.sub_rng('c04tri', name)
         for _ in range(60 if ctx.tier == 'quick' else 2000):
             t = tuple(r.choice(pl) for _ in range(3))
